@@ -74,6 +74,10 @@ def apply(o, objs, variant):
     if op == "lt": return a < b
     if op == "gt": return a > b
     if op == "eq": return a == b
+    if op in ("mx11", "mx12"):
+        from PEPit import PSDMatrix
+        m = PSDMatrix([[a, b], [b, a]])
+        return m[0, 0] if op == "mx11" else m[0, 1]
     raise KeyError(op)
 
 
